@@ -1,5 +1,5 @@
 #!/bin/bash
-# usage: .myseed.sh <C09-n|patchfile> : run ./check C09 quick against a scratch worktree of /repo + hook d + patch
+# usage: tools/c09_seedrun.sh <C09-n|patchfile> : run ./check C09 quick against a scratch worktree of /repo + hook d + patch
 S=$1
 if [ -d /work/s09d/seeded/$S ]; then P=/work/s09d/seeded/$S/patch.diff; else P=$S; fi
 WT=/work/s09d-seed-$$
